@@ -14,7 +14,7 @@ CONSTANTS
   MaxTopics = 3
   MaxSubs = 4
   MaxDels = 6
-  MaxTime = 8
+  MaxTime = 7
   TickDs <- mcTickDs
   PullMaxes <- mcPullMaxes
   AckMax = 1
@@ -27,6 +27,7 @@ CONSTANTS
   Depth = 0
   AttBound = 2
   ViewKeep = {}
+  GenBFS = FALSE
   AckAll = TRUE
   Weights <- mcWeights
 INVARIANTS InvOK AckedStaysAcked AttemptsBounded OneLivePerName
